@@ -1,0 +1,143 @@
+//go:build verif
+
+package ast
+
+import "github.com/smarthome-go/homescript/v3/homescript/lexer"
+
+// Specification vocabulary and contracts checked by /verif/hvc (build tag
+// verif only). The token -> operator tables below are transcribed from the
+// operator table of README.md / grammar.ebnf; they are the oracle for the
+// conversion functions of this package.
+
+// VIsInfixTok: the token is a binary (non-assigning) operator.
+func VIsInfixTok(k lexer.TokenKind) bool {
+	switch k {
+	case lexer.Plus, lexer.Minus, lexer.Multiply, lexer.Divide, lexer.Modulo, lexer.Power,
+		lexer.ShiftLeft, lexer.ShiftRight, lexer.BitOr, lexer.BitAnd, lexer.BitXor,
+		lexer.Or, lexer.And, lexer.Equal, lexer.NotEqual,
+		lexer.LessThan, lexer.LessThanEqual, lexer.GreaterThan, lexer.GreaterThanEqual:
+		return true
+	}
+	return false
+}
+
+// VIsAssignTok: the token is an assignment operator.
+func VIsAssignTok(k lexer.TokenKind) bool {
+	switch k {
+	case lexer.Assign, lexer.PlusAssign, lexer.MinusAssign, lexer.MultiplyAssign, lexer.DivideAssign,
+		lexer.ModuloAssign, lexer.PowerAssign, lexer.ShiftLeftAssign, lexer.ShiftRightAssign,
+		lexer.BitOrAssign, lexer.BitAndAssign, lexer.BitXorAssign:
+		return true
+	}
+	return false
+}
+
+// VIsPrefixTok: the token is a prefix operator.
+func VIsPrefixTok(k lexer.TokenKind) bool {
+	return k == lexer.Minus || k == lexer.Not || k == lexer.QuestionMark
+}
+
+// VIsMemberTok: the token is a member-access operator.
+func VIsMemberTok(k lexer.TokenKind) bool {
+	return k == lexer.Dot || k == lexer.Arrow || k == lexer.TildeArrow
+}
+
+// VInfixOf: operator denoted by a binary operator token.
+func VInfixOf(k lexer.TokenKind) InfixOperator {
+	switch k {
+	case lexer.Plus:
+		return PlusInfixOperator
+	case lexer.Minus:
+		return MinusInfixOperator
+	case lexer.Multiply:
+		return MultiplyInfixOperator
+	case lexer.Divide:
+		return DivideInfixOperator
+	case lexer.Modulo:
+		return ModuloInfixOperator
+	case lexer.Power:
+		return PowerInfixOperator
+	case lexer.ShiftLeft:
+		return ShiftLeftInfixOperator
+	case lexer.ShiftRight:
+		return ShiftRightInfixOperator
+	case lexer.BitOr:
+		return BitOrInfixOperator
+	case lexer.BitAnd:
+		return BitAndInfixOperator
+	case lexer.BitXor:
+		return BitXorInfixOperator
+	case lexer.Or:
+		return LogicalOrInfixOperator
+	case lexer.And:
+		return LogicalAndInfixOperator
+	case lexer.Equal:
+		return EqualInfixOperator
+	case lexer.NotEqual:
+		return NotEqualInfixOperator
+	case lexer.LessThan:
+		return LessThanInfixOperator
+	case lexer.LessThanEqual:
+		return LessThanEqualInfixOperator
+	case lexer.GreaterThan:
+		return GreaterThanInfixOperator
+	}
+	return GreaterThanEqualInfixOperator
+}
+
+// VAssignOf: operator denoted by an assignment token.
+func VAssignOf(k lexer.TokenKind) AssignOperator {
+	switch k {
+	case lexer.Assign:
+		return StdAssignOperatorKind
+	case lexer.PlusAssign:
+		return PlusAssignOperatorKind
+	case lexer.MinusAssign:
+		return MinusAssignOperatorKind
+	case lexer.MultiplyAssign:
+		return MultiplyAssignOperatorKind
+	case lexer.DivideAssign:
+		return DivideAssignOperatorKind
+	case lexer.ModuloAssign:
+		return ModuloAssignOperatorKind
+	case lexer.PowerAssign:
+		return PowerAssignOperatorKind
+	case lexer.ShiftLeftAssign:
+		return ShiftLeftAssignOperatorKind
+	case lexer.ShiftRightAssign:
+		return ShiftRightAssignOperatorKind
+	case lexer.BitOrAssign:
+		return BitOrAssignOperatorKind
+	case lexer.BitAndAssign:
+		return BitAndAssignOperatorKind
+	}
+	return BitXorAssignOperatorKind
+}
+
+/*@ func TokenAsInfixOperator
+    serves C05, C07
+    requires VIsInfixTok(from)
+    ensures result == VInfixOf(from)
+@*/
+
+/*@ func TokenAsAssignOperator
+    serves C05, C07
+    requires VIsAssignTok(from)
+    ensures result == VAssignOf(from)
+@*/
+
+/*@ func TokenAsPrefixOperator
+    serves C05, C07
+    requires VIsPrefixTok(from)
+    ensures from == lexer.Minus ==> result == MinusPrefixOperator
+    ensures from == lexer.Not ==> result == NegatePrefixOperator
+    ensures from == lexer.QuestionMark ==> result == IntoSomePrefixOperator
+@*/
+
+/*@ func NewMemberOperator
+    serves C05, C07
+    requires VIsMemberTok(token)
+    ensures token == lexer.Dot ==> result == DotMemberOperator
+    ensures token == lexer.Arrow ==> result == ArrowMemberOperator
+    ensures token == lexer.TildeArrow ==> result == TildeArrowMemberOperator
+@*/
